@@ -304,7 +304,7 @@ def toLoggers (cfg : Cfg) (f : Frame) : List Nat → State → State
 /-- `MessageManager.send_ack` -/
 def sendAck (cfg : Cfg) (s : State) (u : Nat) : State :=
   match s.find u with
-  | none => s.crash "send_ack to a module that is not in the table"
+  | none => s                                -- `if src_module.conn not in self.modules: return`
   | some m =>
     let f := ackFrame cfg m.modId
     let s := trySend cfg (fwdTop cfg) s u f
